@@ -244,6 +244,64 @@ def run(ctx):
                                                    "replay_cmd": "printf 'position fen %s%s\\ngo depth 3\\n%s\\ngo %s\\n' | (cat; sleep 2) | %s | grep bestmove" % (
                                                        fen, (" moves " + " ".join(played)) if played else "", pc, lim2, C.ENGINE)})
                         violations.append({"replay": rp})
+    # ---- every option the engine ADVERTISES (`uci` -> `option name X type spin ... min A max B`), set to its extremes and to small
+    # values, before go's with clocks and movetimes smaller than any such value: whatever an option means, a go must still be answered
+    # by exactly one legal bestmove in time (seeded change r7C09: a "Move Overhead" subtracted from an unsigned clock wraps around)
+    opt_gos = 0
+    e0 = uciproc.Engine()
+    try:
+        e0.send("uci")
+        e0.wait_for(lambda l: l == "uciok", 10)
+        opt_lines = [l for l in e0.lines() if l.startswith("option name ")]
+    finally:
+        rc0, _ = e0.finish()
+        if rc0 is None:
+            e0.kill()
+    settings = []
+    for l in opt_lines:
+        name = l[len("option name "):].split(" type ")[0]
+        f = l.split()
+        if " type spin" in l and "min" in f and "max" in f:
+            lo, hi = int(f[f.index("min") + 1]), int(f[f.index("max") + 1])
+            vals = sorted(set(v for v in (lo, hi, 1, 50, 100, 1000) if lo <= v <= hi))
+            settings += [(name, v) for v in vals]
+        elif " type check" in l:
+            settings += [(name, "true"), (name, "false")]
+        elif " type button" in l:
+            settings.append((name, None))
+    small_gos = [("wtime 60 btime 60", 0.003), ("movetime 20", 0.02), ("wtime 1 btime 1 winc 0 binc 0", 0.001), ("movetime 0", 0.0), ("depth 2", 5.0)]
+    start_legal = legal[0] if legal and legal[0] else None
+    for name, val in settings:
+        eng = uciproc.Engine()
+        try:
+            eng.send("setoption name %s%s" % (name, "" if val is None else " value %s" % val))
+            eng.send("position startpos")
+            for limits, budget_s in small_gos:
+                before = len(eng.lines())
+                eng.send("go " + limits)
+                idx = eng.wait_for(lambda l: l.startswith("bestmove"), budget_s * 10 + 8.0, start=before)
+                opt_gos += 1
+                problem = None
+                if idx is None:
+                    problem = "no bestmove within %.1fs" % (budget_s * 10 + 8.0)
+                else:
+                    mv = (eng.lines()[idx].split() + [""])[1]
+                    if start_legal is not None and mv not in start_legal:
+                        problem = "bestmove %s is not a legal move" % mv
+                if problem:
+                    rp = C.write_replay(prop, {"kind": "go after setoption", "session": ["setoption name %s%s" % (name, "" if val is None else " value %s" % val),
+                                                                                            "position startpos", "go " + limits],
+                                               "problem": problem, "stderr": eng.err_lines()[-3:],
+                                               "replay_cmd": "printf 'setoption name %s%s\\nposition startpos\\ngo %s\\n' | (cat; sleep 3) | %s | grep bestmove" % (
+                                                   name, "" if val is None else " value %s" % val, limits, C.ENGINE)})
+                    violations.append({"replay": rp})
+                    break
+        finally:
+            rc, t = eng.finish()
+            if rc is None:
+                eng.kill()
+    cov["gos_after_setoption"] = opt_gos
+    cov["advertised_options"] = [l[len("option name "):] for l in opt_lines]
     cov["tiny_budget_gos_after_full_search"] = tiny_gos
     cov["pipe_sessions"] = sessions
     cov["pipe_go_commands"] = gos
